@@ -24,7 +24,7 @@ NAMES = ["a", "b", "c", "d", "e", "0", "1", "-1", "a b", "", "'", "\u00e9", "\U0
 
 def plan(tier, seed):
     if tier == "quick":
-        return [{"n": 500} for _ in range(8)]
+        return [{"n": 1000} for _ in range(16)]
     return [{"n": 10000} for _ in range(16)]
 
 
